@@ -176,13 +176,15 @@ def configurations(tier, rng):
     base = dict(total_time=1.0, gamma=5. / 3.)
     # geometry classes: dyadic / non-dyadic side with a non power-of-two number of cells per subgrid / anisotropic
     cfgs.append(("dyadic", dict(base, ncell=(8, 8, 8), nsub=(2, 2, 2), periodic=(True, True, True), side=(1., 1., 1.))))
-    cfgs.append(("nondyadic", dict(base, ncell=(12, 12, 12), nsub=(2, 2, 2), periodic=(True, True, True),
+    # total times that are not powers of two: the integer time line <-> physical time conversion is then inexact, a dump
+    # that stores a converted time does not restore the integer time
+    cfgs.append(("nondyadic", dict(base, total_time=0.7, ncell=(12, 12, 12), nsub=(2, 2, 2), periodic=(True, True, True),
                                    side=(0.7, 0.7, 0.7))))
-    cfgs.append(("aniso_walls", dict(base, ncell=(6, 12, 9), nsub=(1, 2, 3), periodic=(False, True, False),
+    cfgs.append(("aniso_walls", dict(base, total_time=1.3, ncell=(6, 12, 9), nsub=(1, 2, 3), periodic=(False, True, False),
                                      side=(0.9, 1.3, 0.35), anchor=(0.1, -0.7, 3.3))))
     cfgs.append(("turbulence", dict(base, ncell=(8, 8, 8), nsub=(2, 2, 2), periodic=(True, True, True), side=(1., 1., 1.),
                                     extra="  turbulent forcing: true\n" + TURB)))
-    cfgs.append(("turbulence_aniso", dict(base, ncell=(8, 12, 16), nsub=(2, 2, 2), periodic=(True, True, True), side=(1., 1., 1.),
+    cfgs.append(("turbulence_aniso", dict(base, total_time=1. / 3., ncell=(8, 12, 16), nsub=(2, 2, 2), periodic=(True, True, True), side=(1., 1., 1.),
                                           extra="  turbulent forcing: true\n" + TURB)))
     # an evolving source: a supernova that goes off during the first step (its "has exploded" state has to survive a restart,
     # otherwise the energy is injected again)
@@ -190,7 +192,7 @@ def configurations(tier, rng):
                                    extra="  do stellar feedback: true\n",
                                    source_block="PhotonSourceDistribution:\n  type: SingleSupernova\n  position: [0.4 m, 0.6 m, 0.55 m]\n"
                                                 "  lifetime: 1.e-12 s\n  luminosity: 1.e46 s^-1\n  energy: 1.e-9 J\n")))
-    cfgs.append(("mask", dict(base, ncell=(8, 8, 8), nsub=(2, 2, 2), periodic=(False, False, False), side=(1., 1., 1.),
+    cfgs.append(("mask", dict(base, total_time=0.77, ncell=(8, 8, 8), nsub=(2, 2, 2), periodic=(False, False, False), side=(1., 1., 1.),
                               extra="  use mask: true\n" + MASK)))
     if tier != "quick":
         cfgs.append(("single", dict(base, ncell=(10, 10, 10), nsub=(1, 1, 1), periodic=(True, False, True),
@@ -217,7 +219,7 @@ def configurations(tier, rng):
             blocks = (TURB if "turbulent" in extra else "") + \
                 (MASK.replace("[0.25 m, 0.5 m, 0.5 m]", "[%r m, %r m, %r m]" % (0.3 * side[0], 0.5 * side[1], 0.5 * side[2]))
                      .replace("radius: 0.2 m", "radius: %r m" % (0.18 * min(side))) if "mask" in extra else "")
-            cfgs.append(("seeded%d" % j, dict(base, ncell=nc, nsub=ns, periodic=per, side=side, gamma=rng.choice([5. / 3., 1.4, 1.1]),
+            cfgs.append(("seeded%d" % j, dict(base, total_time=rng.choice([1.0, 0.7, 1.3, 1. / 3., 3.15576e-3]), ncell=nc, nsub=ns, periodic=per, side=side, gamma=rng.choice([5. / 3., 1.4, 1.1]),
                                               extra=extra + blocks)))
     return cfgs
 
